@@ -82,7 +82,7 @@ def gen(seed, labels, cohort_max=None):
     rng = rng_for(seed, "c02", *labels)
     if cohort_max == "overflow-band":
         # binomial coefficients cross the f64 range around 1030 chromosomes: C(1030, 515) is just above f64::MAX
-        ns = rng.choice([514, 515, 516, 520])
+        ns = rng.choice([515, 515, 516, 514])
         npops = 1
         nrec = 3
     elif cohort_max:
@@ -109,11 +109,20 @@ def gen(seed, labels, cohort_max=None):
     else:
         project = G.random_project(rng, smap)
         if cohort_max == "overflow-band":
-            project = [rng.choice([z, z - 1, z + 1, 515, 514, 516])for z in sizes]
+            project = [rng.choice([515, 515, 514, 516, 517, z]) for z in sizes]
         elif cohort_max:
             project = [rng.choice([2 * z, 2 * z - 1, 171, 172, 170, rng.randint(1, 2 * z), z, 2 * (z // 2)]) for z in sizes]
             project = [min(2 * z, max(0, m)) for m, z in zip(project, sizes)]
-    cs = steered_callset(rng, samples, smap, project, nrec)
+    if cohort_max == "overflow-band":
+        # every sample complete (t = 2n exactly), allele frequencies from rare to common: the numerator binomials stay finite
+        # for small ALT counts while C(t, m) overflows
+        recs = []
+        for ri in range(6):
+            pf = [0.0, 0.002, 0.01, 0.1, 0.5, 0.99][ri]
+            recs.append(Record("c1", 10 + ri, [gt((1 if rng.random() < pf else 0, 1 if rng.random() < pf else 0), False) for _ in samples]))
+        cs = CallSet(samples, [("c1", 10 ** 6)], recs)
+    else:
+        cs = steered_callset(rng, samples, smap, project, nrec)
     return {"cs": cs, "map": smap, "project": project, "labels": labels, "precision": rng.choice([0, 1, 2, 3, 6, 6, 9, 12]),
             "container": rng.choice(E.CONTAINERS), "seed2": rng.randrange(1 << 30), "cohort_max": cohort_max}
 
@@ -261,7 +270,7 @@ def shard(S, p):
         return
     check_L1(S, [gen(seed, [p["name"], "L1", i]) for i in range(p["l1"])])
     check_C(S, [gen(seed, [p["name"], "C", i]) for i in range(p["c"])])
-    if p["i"] % 8 == 3:
+    if p["i"] % 4 == 3:
         ob = [gen(seed, [p["name"], "overflow-band", 0], cohort_max="overflow-band")]
         check_L1(S, ob)
         S.count("overflow_band_cohorts", len(ob))
